@@ -736,6 +736,49 @@ def corr_stereo(ck, cs):
             ck.count(f'stereo:unfiltered={min(len(un), 3)}:kept={min(len(got), 3)}:{"err:" + err if err else "ok"}')
 
 
+MS_PATTERNS = ['F[C@H](Cl)Br', 'F[C@@H](Cl)Br', 'C[C@H](O)CC', 'C[C@H](O)C', 'C/C=C/C', 'C/C=C\\C', 'CC', 'CO', 'C[C@H](N)C(O)=O', 'F/C=C/F', 'CC=[C@]=CC',
+               'C[C@@H](O)/C=C/C', 'F[C@H](Cl)[C@H](F)Br', 'C.C', 'F[C@H](Cl)Br.C', 'C[C@H]1CC[C@@H](C)CC1', 'OC(C)C', 'FC(Cl)Br']
+
+
+def corr_match_stereo(ck, cs):
+    """MoleculeIsomorphism.get_mapping(match_stereo=True): the sequence of mappings against the control-flow model; get_fast_mapping's
+    answer and the substructure's classes / bonds are observed per found embedding"""
+    from chython import smiles
+    rng = random.Random(f'{ck.seed}:match-stereo')
+    pats = [(x, smiles(x)) for x in MS_PATTERNS]
+    tgts = [(x, smiles(x)) for x in STEREO_TARGETS if '[H]' not in x] + [(x, smiles(x)) for x in ('C.C', 'F[C@H](Cl)Br.C', 'C[C@](F)(Cl)Br')]
+    for ttxt, t in tgts:
+        for ptxt, p in pats:
+            if len(p) > len(t):
+                continue
+            for flt in (True, False):
+                un, e0 = drain_partial(p._get_mapping(t, automorphism_filter=True, searching_scope=None))
+                if e0 is not None or len(un) > 40:
+                    continue
+                if not un and rng.random() < .9:
+                    continue
+                obs = []
+                bad = False
+                for mp in un:
+                    try:
+                        sub = t.substructure(mp.values())
+                        fm = p.get_fast_mapping(sub)
+                        cl = dict(sub._chiral_morgan)
+                        bd = {n: {k: int(x) for k, x in ms.items()} for n, ms in sub._bonds.items()}
+                    except Exception:  # noqa
+                        bad = True
+                        break
+                    obs.append(tup(opt(fm, lambda f: lst([tup(zraw(k), zraw(v)) for k, v in f.items()])), zpairs(cl), zadj(bd)))
+                if bad:
+                    ck.count('match_stereo:skipped')
+                    continue
+                got, err = drain(p.get_mapping(t, automorphism_filter=flt, match_stereo=True))
+                cs.add(f'pyres_eqb maps_eqb (match_stereo_stream Z.eqb {b(flt)} {lst(obs)}) {res_maps(got, err)}',
+                       ('MoleculeIsomorphism.get_mapping(match_stereo=True)', ptxt, ttxt, flt))
+                ck.case(('match-stereo', ptxt, ttxt, flt), nontrivial=bool(got))
+                ck.count(f'match_stereo:filter={int(flt)}:found={min(len(un), 3)}:yielded={min(len(got or []), 4)}')
+
+
 def correspondence(ck):
     cs = Cases()
     corr_lazy_product(ck, cs)
@@ -745,6 +788,7 @@ def correspondence(ck):
     corr_smarts(ck, cs)
     corr_automorphism(ck, cs)
     corr_stereo(ck, cs)
+    corr_match_stereo(ck, cs)
     ok, failing, log = coqcases.run_cases('c07', 'Iso Graph IsoStereo', cs.exprs, shard=250, extra='From Proofs Require Import IsoProofs IsoExt.')
     good = ok and not failing
     ck.oblige('correspondence: lazy_product, _compile_query, _get_mapping, Isomorphism._get_mapping (sequence of mappings, order included), '
@@ -1374,6 +1418,53 @@ def search_stereo(ck):
                           replay_py=f'from chython import smiles, smarts; print(list(smarts({s_!r}).get_mapping(smiles({ttxt!r}), _cython=False)))')
 
 
+def search_match_stereo(ck):
+    """pattern.get_mapping(target, match_stereo=True, automorphism_filter=False) against RDKit: the pattern molecule as RDKit query with
+    useChirality=True (re-filtered to induced matches), on comparable pairs only (connected pattern without allene centres, every
+    labelled pattern centre is really stereogenic, each found substructure keeps the hydrogens of the target)"""
+    from chython import smiles
+    try:
+        from rdkit import Chem, RDLogger
+        RDLogger.DisableLog('rdApp.*')
+    except Exception:  # noqa
+        return
+    pats = [(x, smiles(x)) for x in MS_PATTERNS if '.' not in x and '=[C@' not in x]
+    for ttxt in [x for x in STEREO_TARGETS if '[H]' not in x and '=[C@' not in x and 'C=C=C' not in x]:
+        t = smiles(ttxt)
+        rm = rdkit_comparable(Chem, ttxt, t)
+        if rm is None:
+            continue
+        for ptxt, p in pats:
+            if len(p) != len(t):        # same size: the matched substructure is the whole target, hydrogens included (no recalculation issue)
+                continue
+            rp = rdkit_comparable(Chem, ptxt, p)
+            if rp is None:
+                continue
+            want = {tuple(i + 1 for i in m) for m in rm.GetSubstructMatches(rp, uniquify=False, useChirality=True, maxMatches=100000)}
+            plain = {tuple(i + 1 for i in m) for m in rm.GetSubstructMatches(rp, uniquify=False, useChirality=False, maxMatches=100000)}
+            order = sorted(p._atoms)
+            nlab = lambda m: sum(a.stereo is not None for a in m._atoms.values()) + sum(bd.stereo is not None for *_, bd in m.bonds())
+            if nlab(p) != nlab(t):
+                # chython demands EQUAL labels on the matched part, RDKit only that the labelled query centres agree: comparable only
+                # when neither side has a label the other lacks
+                ck.count('search:match_stereo:not-comparable')
+                continue
+            if len(plain) > 1 and sum(a.stereo is not None for a in p._atoms.values()) >= 2:
+                # several labelled centres exchanged by a symmetry (e.g. trans-1,4-dimethylcyclohexane): the toolkits disagree on which
+                # symmetry operations keep the labels (pseudo-asymmetry); not decided here, reported as an open disagreement
+                ck.count('search:match_stereo:pseudo-asymmetric-skipped')
+                continue
+            got, err = drain(p.get_mapping(t, automorphism_filter=False, match_stereo=True))
+            ck.case(('search-match-stereo', ptxt, ttxt), nontrivial=bool(want))
+            ck.count(f'search:match_stereo:{"hit" if want else "plain-only" if plain else "miss"}')
+            gotset = None if got is None else {tuple(m[n] for n in order) for m in got}
+            if gotset != want or (got is not None and len(got) != len(gotset)):
+                ck.counterexample(f'match-stereo-rdkit:{ptxt}>{ttxt}', 'get_mapping(match_stereo=True, automorphism_filter=False) differs from RDKit '
+                                  'useChirality on a same-size pair', {'pattern': ptxt, 'target': ttxt}, err or sorted(gotset), sorted(want),
+                                  'RDKit GetSubstructMatches(useChirality=True, uniquify=False)',
+                                  replay_py=f'from chython import smiles; print(list(smiles({ptxt!r}).get_mapping(smiles({ttxt!r}), automorphism_filter=False, match_stereo=True)))')
+
+
 RDKIT_TARGETS = ['CC1CC1', 'C1CCCCC1', 'CCCC', 'c1ccccc1-c1ccccc1', 'O=C1CCC(OC)O1', 'NCCC1CCNC1', 'CCC1CCCC1', 'C=C1CCC=C1', 'CC(=O)OC1CC1', 'c1ccncc1C',
                  'C1CC2CC12', 'N#CC1CCC1', 'OC1CCOC1', 'CC(C)=O', 'c1ccc2ccccc2c1', 'C1=CCCC1C=C', 'OCC1CO1', 'CN1CCCC1=O', 'C1CC1C1CC1', 'CC=CC']
 
@@ -1549,6 +1640,7 @@ def search(ck):
     search_lazy_product(ck, 200 if ck.tier == 'quick' else 3000)
     search_automorphism(ck, [('C.C', smiles('C.C'))] + targets)
     search_stereo(ck)
+    search_match_stereo(ck)
     search_rdkit(ck, [(x, smiles(x)) for x in RDKIT_TARGETS] + [(x, m) for x, m in targets if '.' not in x])
     ck.extra['search_pairs'] = npairs
 
